@@ -154,7 +154,7 @@ Proof.
     inversion Hn; subst nd; clear Hn. destruct (D n nd0 t En Hrt) as (D1&D2).
     destruct (n =? j) eqn:E; simpl; [|split; assumption].
     apply Nat.eqb_eq in E. subst n. split; [|exact D2]. rewrite delivs_app, ft_app, D1. simpl.
-    destruct (t0 =? t) eqn:Et; [|reflexivity]. apply Nat.eqb_eq in Et. subst t0. congruence.
+    destruct (t0 =? t) eqn:Et; [|reflexivity]. apply Nat.eqb_eq in Et. subst t0. exfalso. apply Hrt. exact Hr.
   - intros n nd Hn. rewrite nth_error_push in Hn. destruct (nth_error ns n) as [nd0|] eqn:En; [|discriminate].
     inversion Hn; subst nd; clear Hn. destruct (n =? j); simpl; apply (S n nd0 En).
   - intros i ndi t Hi. rewrite nth_error_push in Hi. destruct (nth_error ns i) as [nd0|] eqn:En; [|discriminate].
@@ -233,8 +233,229 @@ Lemma handle_events_GInv nw evs : forall e ns e' ns',
   GInv e ns evs -> GInv e' ns' [] /\ length ns' = nw.
 Proof.
   induction evs as [|ev evs IH]; intros e ns e' ns' Hnw Hlen H G; cbn [handle_events] in H.
-  - inversion H; subst. split; assumption.
+  - inversion H; subst e' ns'. split; [exact G|exact Hlen].
   - destruct (handle_event nw ev (e, ns)) as [[e1 ns1]|] eqn:E1; cbn [rbind] in H; [|discriminate].
     destruct (handle_event_GInv nw ev evs e ns e1 ns1 Hnw Hlen E1 G) as (G1&L1).
     eapply IH; eassumption.
+Qed.
+
+(* ------------------------------------------------------------------ the collect phase *)
+Lemma fw_nil_forall i l : Forall (fun x => m_w (snd x) <> i) l -> fw i l = [].
+Proof.
+  induction l as [|a l IH]; intros H; simpl; [reflexivity|]. inversion H; subst.
+  destruct (m_w (snd a) =? i) eqn:E; [apply Nat.eqb_eq in E; contradiction|]. apply IH. assumption.
+Qed.
+Lemma filter_comm {A} (f g : A -> bool) l : filter f (filter g l) = filter g (filter f l).
+Proof.
+  induction l as [|a l IH]; simpl; [reflexivity|].
+  destruct (g a) eqn:Eg; destruct (f a) eqn:Ef; simpl; rewrite ?Eg, ?Ef, ?IH; reflexivity.
+Qed.
+Lemma ft_fw_comm i t l : ft t (fw i l) = fw i (ft t l).
+Proof. unfold ft, fw. apply filter_comm. Qed.
+
+Lemma collect_spec : forall ns ks b evs ns',
+  (forall k nd, nth_error ns k = Some nd -> Forall (fun x => m_w (snd x) = b + k) (edelivs (n_evt nd))) ->
+  collect ks ns = (evs, ns') ->
+  length ns' = length ns /\
+  Forall (fun x => b <= m_w (snd x) < b + length ns) (edelivs evs) /\
+  (forall k nd, nth_error ns k = Some nd -> exists nd', nth_error ns' k = Some nd' /\ n_w nd' = n_w nd /\ n_cmd nd' = n_cmd nd /\
+       edelivs (n_evt nd) = fw (b + k) (edelivs evs) ++ edelivs (n_evt nd') /\
+       Forall (fun x => m_w (snd x) = b + k) (edelivs (n_evt nd'))).
+Proof.
+  induction ns as [|nd ns IH]; intros ks b evs ns' Hst Hc; simpl in Hc.
+  - inversion Hc; subst. simpl. repeat split; [constructor|]. intros k nd H. destruct k; discriminate.
+  - set (k0 := match ks with [] => None | k1 :: _ => Some k1 end) in Hc.
+    pose proof (split_at_app k0 (n_evt nd)) as Hs.
+    destruct (split_at k0 (n_evt nd)) as [now_evs later]. simpl in Hs.
+    destruct (collect (tl ks) ns) as [evs_t ns_t] eqn:Ec. inversion Hc; subst evs ns'; clear Hc.
+    destruct (IH (tl ks) (S b) evs_t ns_t) as (L&R&N); [|exact Ec|].
+    { intros k nd0 Hk. replace (S b + k) with (b + S k) by lia. apply (Hst (S k) nd0 Hk). }
+    pose proof (Hst 0 nd eq_refl) as H0. rewrite Nat.add_0_r in H0.
+    rewrite <- Hs, edelivs_app in H0. apply Forall_app in H0. destruct H0 as (Hnow&Hlater).
+    split; [simpl; rewrite L; reflexivity|]. split.
+    + rewrite edelivs_app. apply Forall_app. split.
+      * eapply Forall_impl; [|exact Hnow]. intros x Hx. simpl in *. lia.
+      * eapply Forall_impl; [|exact R]. intros x Hx. simpl in *. lia.
+    + intros k nd0 Hk. destruct k as [|k]; simpl in Hk.
+      * inversion Hk; subst nd0. eexists. split; [reflexivity|]. simpl. repeat split.
+        -- rewrite Nat.add_0_r, edelivs_app, fw_app, (fw_all b _ Hnow).
+           rewrite (fw_nil_forall b (edelivs evs_t)), app_nil_r, <- edelivs_app, Hs; [reflexivity|].
+           eapply Forall_impl; [|exact R]. intros x Hx. simpl in *. lia.
+        -- rewrite Nat.add_0_r. exact Hlater.
+      * destruct (N k nd0 Hk) as (nd'&A1&A2&A3&A4&A5). exists nd'. simpl. repeat split; try assumption.
+        -- replace (b + S k) with (S b + k) by lia. rewrite edelivs_app, fw_app.
+           rewrite (fw_nil_forall (S b + k) (edelivs now_evs)); [exact A4|].
+           eapply Forall_impl; [|exact Hnow]. intros x Hx. simpl in *. lia.
+        -- replace (b + S k) with (S b + k) by lia. exact A5.
+Qed.
+
+Lemma Jpart_same e ns ns' i t :
+  (forall j ndj, nth_error ns j = Some ndj -> exists ndj', nth_error ns' j = Some ndj' /\ n_w ndj' = n_w ndj /\ n_cmd ndj' = n_cmd ndj) ->
+  length ns' = length ns -> Jpart e ns' i t = Jpart e ns i t.
+Proof.
+  intros H L. unfold Jpart. destruct (alookup t (e_router e)) as [j|]; [|reflexivity].
+  destruct (nth_error ns j) as [ndj|] eqn:Ej.
+  - destruct (H j ndj Ej) as (ndj'&A&B&C). rewrite A, B, C. reflexivity.
+  - apply nth_error_None in Ej. rewrite <- L in Ej. apply nth_error_None in Ej. rewrite Ej. reflexivity.
+Qed.
+
+Lemma collect_GInv e ns ks evs ns' :
+  GInv e ns [] -> collect ks ns = (evs, ns') -> GInv e ns' evs /\ length ns' = length ns.
+Proof.
+  intros (B&D&S&Q) Hc.
+  destruct (collect_spec ns ks 0 evs ns') as (L&R&N); [intros k nd Hk; apply (S k nd Hk)|exact Hc|].
+  assert (Back: forall k nd', nth_error ns' k = Some nd' -> exists nd, nth_error ns k = Some nd /\ n_w nd' = n_w nd /\ n_cmd nd' = n_cmd nd /\
+              edelivs (n_evt nd) = fw k (edelivs evs) ++ edelivs (n_evt nd') /\ Forall (fun x => m_w (snd x) = k) (edelivs (n_evt nd'))).
+  { intros k nd' Hk. destruct (nth_error ns k) as [nd|] eqn:Ek.
+    - destruct (N k nd Ek) as (nd2&A1&A2&A3&A4&A5). rewrite Hk in A1. inversion A1; subst nd2. exists nd. repeat split; assumption.
+    - apply nth_error_None in Ek. rewrite <- L in Ek. apply nth_error_None in Ek. congruence. }
+  split; [|exact L]. split; [|split; [|split]].
+  - intros p w Hp. rewrite L. apply (B p w Hp).
+  - intros n nd' t Hn Hr. destruct (Back n nd' Hn) as (nd&Hk&A2&A3&_&_). rewrite A2, A3. apply (D n nd t Hk Hr).
+  - intros n nd' Hn. destruct (Back n nd' Hn) as (nd&Hk&A2&_&_&A5). rewrite A2. split; [apply (S n nd Hk)|exact A5].
+  - intros i ndi t Hi. destruct (Back i ndi Hi) as (nd&Hk&A2&A3&A4&A5).
+    rewrite A2, (Q i nd t Hk), A4. simpl.
+    rewrite (Jpart_same e ns ns' i t); [|intros j ndj Hj; destruct (N j ndj Hj) as (x&X1&X2&X3&_); exists x; auto|exact L].
+    rewrite ft_app, ft_fw_comm. reflexivity.
+Qed.
+
+(* ------------------------------------------------------------------ a worker step *)
+Lemma nth_error_update_same {A} (l : list A) n a a' : nth_error l n = Some a -> nth_error (update_nth n (fun _ => a') l) n = Some a'.
+Proof.
+  revert n. induction l as [|b l IH]; intros [|n] H; simpl in *; try discriminate; [reflexivity|apply IH; exact H].
+Qed.
+Lemma nth_error_update_other {A} (l : list A) n k (f : A -> A) : k <> n -> nth_error (update_nth n f l) k = nth_error l k.
+Proof.
+  revert n k. induction l as [|b l IH]; intros [|n] [|k] H; simpl; auto; try congruence.
+Qed.
+
+Lemma worker_step_GInv e ns n nd nd' i0 now k o :
+  nth_error ns n = Some nd -> node_step i0 now k o nd = Good nd' -> i0 = n ->
+  GInv e ns [] -> GInv e (update_nth n (fun _ => nd') ns) [].
+Proof.
+  intros Hn Hs -> (B&D&S&Q).
+  destruct (node_step_ghost _ _ _ _ _ _ Hs) as (pre&new&C1&C2&C3&C4&Hnew).
+  assert (Hstamp: Forall (fun x => m_w (snd x) = n) new).
+  { destruct Hnew as [(->&_)|(t&p&->&_)]; repeat constructor. }
+  assert (Look: forall k0 x, nth_error (update_nth n (fun _ => nd') ns) k0 = Some x ->
+                 (k0 = n /\ x = nd') \/ (k0 <> n /\ nth_error ns k0 = Some x)).
+  { intros k0 x Hx. destruct (Nat.eq_dec k0 n) as [->|Hne].
+    - rewrite (nth_error_update_same _ _ _ _ Hn) in Hx. inversion Hx. left; auto.
+    - rewrite nth_error_update_other in Hx by exact Hne. right; auto. }
+  assert (HJ: forall i t, Jpart e (update_nth n (fun _ => nd') ns) i t = Jpart e ns i t).
+  { intros i t. unfold Jpart. destruct (alookup t (e_router e)) as [j|]; [|reflexivity].
+    destruct (Nat.eq_dec j n) as [->|Hne].
+    - rewrite (nth_error_update_same _ _ _ _ Hn), Hn. rewrite C2, C1, delivs_app, !link_app, <- app_assoc. reflexivity.
+    - rewrite nth_error_update_other by exact Hne. reflexivity. }
+  split; [|split; [|split]].
+  - intros p w Hp. rewrite update_nth_length. apply (B p w Hp).
+  - intros k0 x t Hx Hr. destruct (Look k0 x Hx) as [(->&->)|(Hne&Hk)]; [|apply (D k0 x t Hk Hr)].
+    destruct (D n nd t Hn Hr) as (D1&D2). rewrite C1, delivs_app in D1. apply ft_nil_app in D1. destruct D1 as (D1a&D1b).
+    split; [exact D1b|]. rewrite C2, ft_app, D2, D1a. reflexivity.
+  - intros k0 x Hx. destruct (Look k0 x Hx) as [(->&->)|(Hne&Hk)]; [|apply (S k0 x Hk)].
+    destruct (S n nd Hn) as (S1&S2). rewrite C4, C3. split; apply Forall_app; split; assumption.
+  - intros i x t Hx. rewrite HJ. destruct (Look i x Hx) as [(->&->)|(Hne&Hk)]; [|apply (Q i x t Hk)].
+    rewrite C4, C3, !ft_app, (Q n nd t Hn). simpl. rewrite <- !app_assoc. reflexivity.
+Qed.
+
+(* ------------------------------------------------------------------ the system invariant *)
+Definition fifo_inv (s : sys) : Prop := 0 < length (s_nodes s) /\ GInv (s_env s) (s_nodes s) [].
+
+Lemma fifo_init nw : 0 < nw -> fifo_inv (init nw).
+Proof.
+  intros H. unfold fifo_inv, init. simpl. rewrite repeat_length. split; [exact H|].
+  assert (Hn: forall k nd, nth_error (repeat {| n_w := new_worker; n_cmd := []; n_evt := [] |} nw) k = Some nd ->
+               nd = {| n_w := new_worker; n_cmd := []; n_evt := [] |}).
+  { intros k nd Hk. apply nth_error_In, repeat_spec in Hk. exact Hk. }
+  split; [|split; [|split]].
+  - intros p w Hp. discriminate.
+  - intros n nd t Hk _. rewrite (Hn _ _ Hk). split; reflexivity.
+  - intros n nd Hk. rewrite (Hn _ _ Hk). split; constructor.
+  - intros i ndi t Hk. rewrite (Hn _ _ Hk). unfold Jpart. reflexivity.
+Qed.
+
+Lemma fifo_step s a s' : fifo_inv s -> sys_step s a = Good s' -> fifo_inv s'.
+Proof.
+  intros (Hn&G) H. destruct a as [i k o|ks|d|c]; simpl in H.
+  - destruct (nth_error (s_nodes s) i) as [nd|] eqn:Ei.
+    + destruct (node_step i (s_clock s) k o nd) as [nd'|] eqn:Es; cbn [rbind] in H; [|discriminate].
+      inversion H; subst s'; clear H. split; simpl; [rewrite update_nth_length; exact Hn|].
+      eapply worker_step_GInv; try eassumption. reflexivity.
+    + inversion H; subst. split; assumption.
+  - destruct (collect ks (s_nodes s)) as [evs ns] eqn:Ec.
+    destruct (handle_events (length (s_nodes s)) evs (s_env s, ns)) as [[e' ns']|] eqn:Eh; cbn [rbind] in H; [|discriminate].
+    inversion H; subst s'; clear H. simpl.
+    destruct (collect_GInv _ _ _ _ _ G Ec) as (G1&L1).
+    destruct (handle_events_GInv _ _ _ _ _ _ Hn L1 Eh G1) as (G2&L2).
+    split; simpl; [rewrite L2; exact Hn|exact G2].
+  - inversion H; subst s'. split; assumption.
+  - unfold client_step in H. destruct c.
+    + inversion H; subst s'; clear H. split; cbn -[Nat.modulo]; [rewrite push_cmd_length; exact Hn|].
+      apply (GInv_view _ (s_nodes s)); [rewrite view_push_nodeliv by reflexivity; reflexivity|].
+      apply GInv_route; [apply Nat.mod_upper_bound; lia|exact G].
+    + inversion H; subst s'; clear H. split; simpl; [rewrite push_cmd_length; exact Hn|].
+      apply (GInv_view _ (s_nodes s)); [rewrite view_push_nodeliv by reflexivity; reflexivity|exact G].
+    + inversion H; subst s'; clear H. split; simpl; [rewrite push_cmd_length; exact Hn|].
+      apply (GInv_view _ (s_nodes s)); [rewrite view_push_nodeliv by reflexivity; reflexivity|exact G].
+    + destruct (alookup p (e_router (s_env s))); inversion H; subst s'; clear H; [|split; assumption].
+      split; simpl; [rewrite push_cmd_length; exact Hn|].
+      apply (GInv_view _ (s_nodes s)); [rewrite view_push_nodeliv by reflexivity; reflexivity|exact G].
+    + destruct (alookup p (e_router (s_env s))); inversion H; subst s'; clear H; [|split; assumption].
+      split; simpl; [rewrite push_cmd_length; exact Hn|].
+      apply (GInv_view _ (s_nodes s)); [rewrite view_push_nodeliv by reflexivity; reflexivity|exact G].
+Qed.
+
+Lemma fifo_run sigma : forall s s', fifo_inv s -> run s sigma = Good s' -> fifo_inv s'.
+Proof.
+  induction sigma as [|a sigma IH]; intros s s' Hc H; simpl in H.
+  - inversion H; subst. exact Hc.
+  - destruct (sys_step s a) as [s1|] eqn:E; cbn [rbind] in H; [|discriminate].
+    eapply IH; [eapply fifo_step; eassumption|exact H].
+Qed.
+
+(* C04 per_sender_fifo. For every schedule and every oracle, for every source worker i and target t
+   routed to worker j: the list of messages worker i has sent to t (in sending order) IS the list
+   of those that arrived at worker j for t, followed by those in worker j's command queue, followed
+   by those in worker i's event queue — each in order. Exactly-once and FIFO on the whole link. *)
+Theorem per_link_fifo : forall nw sigma s,
+  0 < nw -> run (init nw) sigma = Good s ->
+  forall i ndi t j ndj,
+    nth_error (s_nodes s) i = Some ndi -> alookup t (e_router (s_env s)) = Some j -> nth_error (s_nodes s) j = Some ndj ->
+    ft t (w_sentlog (n_w ndi)) =
+    link i t (w_arrlog (n_w ndj)) ++ link i t (delivs (n_cmd ndj)) ++ ft t (edelivs (n_evt ndi)).
+Proof.
+  intros nw sigma s Hnw H i ndi t j ndj Hi Hr Hj.
+  destruct (fifo_run sigma _ _ (fifo_init nw Hnw) H) as (_&(_&_&_&Q)).
+  rewrite (Q i ndi t Hi). unfold Jpart. rewrite Hr, Hj. simpl. rewrite <- app_assoc. reflexivity.
+Qed.
+
+(* restricted to one sender process p: what has arrived from p is a PREFIX of what p sent, in p's
+   sending order *)
+Definition from (p : pid) (l : list (pid * msg)) := filter (fun x => m_from (snd x) =? p) l.
+
+Theorem per_sender_fifo : forall nw sigma s,
+  0 < nw -> run (init nw) sigma = Good s ->
+  forall i ndi t j ndj p,
+    nth_error (s_nodes s) i = Some ndi -> alookup t (e_router (s_env s)) = Some j -> nth_error (s_nodes s) j = Some ndj ->
+    exists in_flight,
+      from p (ft t (w_sentlog (n_w ndi))) = from p (link i t (w_arrlog (n_w ndj))) ++ in_flight.
+Proof.
+  intros nw sigma s Hnw H i ndi t j ndj p Hi Hr Hj.
+  rewrite (per_link_fifo nw sigma s Hnw H i ndi t j ndj Hi Hr Hj).
+  unfold from. rewrite filter_app. eexists. reflexivity.
+Qed.
+
+(* C03 single_sender_mailbox_order: if everything that arrived for t was stamped by one worker i
+   (one sender per mailbox), the arrival sequence of t is a prefix of that worker's send sequence to
+   t — a function of the sender's behaviour alone, whatever the schedule *)
+Theorem single_sender_mailbox_order : forall nw sigma s,
+  0 < nw -> run (init nw) sigma = Good s ->
+  forall i ndi t j ndj,
+    nth_error (s_nodes s) i = Some ndi -> alookup t (e_router (s_env s)) = Some j -> nth_error (s_nodes s) j = Some ndj ->
+    Forall (fun x => m_w (snd x) = i) (ft t (w_arrlog (n_w ndj))) ->
+    exists in_flight, ft t (w_sentlog (n_w ndi)) = ft t (w_arrlog (n_w ndj)) ++ in_flight.
+Proof.
+  intros nw sigma s Hnw H i ndi t j ndj Hi Hr Hj Hone.
+  rewrite (per_link_fifo nw sigma s Hnw H i ndi t j ndj Hi Hr Hj).
+  unfold link at 1. rewrite (fw_all i _ Hone). eexists. reflexivity.
 Qed.
